@@ -48,6 +48,10 @@ pub fn make_case(seed: u64, tier: Tier, idx: u64, scope: &SmallScope) -> Case {
         let cfg = scope.get(idx - corpus).expect("small scope index");
         let force = vec![idx % 2 == 0; cfg.nn];
         (Source::Enumerated, cfg, force)
+    } else if idx % 997 == 7 {
+        // the state-count family, regularly (thresholds and offsets are drawn inside)
+        let (c, f) = gen::big_cfg_variant(&mut rng, 400, 7);
+        (Source::Big, c, f)
     } else {
         gen::grammar_for_case(&mut rng, idx)
     };
